@@ -2,7 +2,7 @@
    Print Assumptions.  Costs are integers (dyadic floats scaled by 2^30; 2^-26 is 16). *)
 From Coq Require Import ZArith List Bool.
 From Centro Require Import Base.Sx Model.Lapjv Spec.Lapjv Proofs.LapjvCert Proofs.LapjvRefute Proofs.LapjvTrack
-  Proofs.LapjvPhases Proofs.LapjvAbstract Proofs.LapjvGrid Proofs.LapjvArr Proofs.LapjvRows Proofs.LapjvTrackCost.
+  Proofs.LapjvPhases Proofs.LapjvAbstract Proofs.LapjvGrid Proofs.LapjvArr Proofs.LapjvRows Proofs.LapjvTrackCost Proofs.LapjvRt.
 Import ListNotations.
 Open Scope Z_scope.
 
@@ -188,3 +188,38 @@ Theorem C01_match_cost_pos : forall (P : Type) (dist : P -> P -> QArith_base.Q),
   QArith_base.Qlt (QArith_base.inject_Z 0) (match_cost P dist scale weight p1 a1 p2 a2).
 Proof. exact match_cost_pos. Qed.
 Print Assumptions C01_match_cost_pos.
+
+(* phase 2 on the array model, Fixed variant (_lapjv.pyx:81-98 with the row offset): reduction transfer keeps Inv.
+   Bookkeeping proved in Proofs.LapjvRt: rows still to process have u = 0 and reduced cost 0 on their column,
+   x0 is injective on assigned columns, all reduced costs stay non-negative. *)
+Theorem C01_phase12_inv : forall n tri,
+  (forall t, In t tri -> (t_i t < n)%nat /\ (t_j t < n)%nat) ->
+  (forall j, (j < n)%nat -> exists t, In t tri /\ t_j t = j) ->
+  let rows := rows_of n tri in
+  let x0 := x_init n (min_i n tri) in
+  let uv := reduction_transfer Fixed n rows (jflat_of rows) x0 (one_rows n (min_i n tri)) (repeat (Fin 0) n) (v_init n tri) in
+  Inv n rows x0 (y_init n x0) (snd uv) /\ Pending n (y_init n x0) (free_rows n (min_i n tri)).
+Proof. exact phase12_inv. Qed.
+Print Assumptions C01_phase12_inv.
+
+(* phases 1-3 exactly as lapjv() chains them for (Fixed, eps 0 at :202, any eps >= 0 at :208, any k, any fuel):
+   whenever augmenting row reduction returns, the state handed to augment satisfies Inv and the list of free rows is
+   duplicate-free and genuinely unassigned.  (Still restricted to >= 2 candidates per row.) *)
+Theorem C01_phases123_inv : forall n tri,
+  (forall t, In t tri -> (t_i t < n)%nat /\ (t_j t < n)%nat) ->
+  NoDup (map fst tri) ->
+  (forall j, (j < n)%nat -> exists t, In t tri /\ t_j t = j) ->
+  (forall i, (i < n)%nat -> (2 <= length (filter (fun t => (t_i t =? i)%nat) tri))%nat) ->
+  forall epsr fuel k x y v ii, 0 <= epsr ->
+  let rows := rows_of n tri in
+  let mi := min_i n tri in
+  let x0 := x_init n mi in
+  let y0 := y_init n x0 in
+  let uv := reduction_transfer Fixed n rows (jflat_of rows) x0 (one_rows n mi) (repeat (Fin 0) n) (v_init n tri) in
+  match free_rows n mi with
+  | [] => Some (x0, y0, snd uv, free_rows n mi)
+  | _ => arr_passes k fuel (Fin 0) (Fin epsr) n rows (x0, y0, snd uv, free_rows n mi)
+  end = Some (x, y, v, ii) ->
+  Inv n rows x y v /\ Pending n y ii.
+Proof. exact phases123_inv. Qed.
+Print Assumptions C01_phases123_inv.
